@@ -48,6 +48,8 @@ structure PairCtx (ev : Leaf → Bool) (G Go F : Leaf → Prop) (T : Single → 
     mkSingleOfC "python_full_version" (.ver nc) = .ok nm → F (.single fm) → T fm →
     mergeSingle d (.single nm) (.single fm) im = .ok (some (.leaf (.single ms))) →
     Leaf.beq (.single ms) (.single nm) = false → T ms
+  /-- a merged single marker with known text is not a list marker (`in` / `not in` are returned as merged) -/
+  notList : ∀ ms, T ms → (ms.op == "in" || ms.op == "not in") = false
   /-- printing, rewriting and re-parsing a merged single marker keeps its meaning -/
   rewrite : ∀ (ms : Single) (r : M), F (.single ms) → T ms → parseItemMarker (pyRewrite ms) = .ok r →
     M.Good Go r ∧ M.sem ev r = ev (.single ms)
@@ -112,10 +114,11 @@ theorem mergePythonVersion_sound (C : PairCtx ev G Go F T NC p) (depth : Nat) (s
         have hl : F l := by simpa using hgmm
         obtain ⟨ms, rfl, _⟩ := C.single l hl
         simp only at h
+        have hT : T ms := C.text depth nc nm fm ms im hNC hnm hFfm hTfm hmerged (by simpa [M.beq] using hb)
+        rw [if_neg (by simp [C.notList ms hT])] at h
         obtain ⟨w, hw, h⟩ := bind_ok.1 h
         rw [pure_ok] at h
         obtain rfl : w = r := by simpa using h
-        have hT : T ms := C.text depth nc nm fm ms im hNC hnm hFfm hTfm hmerged (by simpa [M.beq] using hb)
         obtain ⟨hgw, hsw⟩ := C.rewrite ms w hl hT hw
         exact ⟨hgw, by rw [hsw, ← hmean, M.sem_leaf]⟩
       | any => simp only [pure_ok] at h; cases h; exact ⟨by simp [M.Good], hmean⟩
